@@ -61,9 +61,10 @@ impl ModelState {
 pub fn normalize_deps(step: &Step, reported: &[String]) -> Vec<String> {
     let mut v: Vec<String> = Vec::new();
     let dirtying: BTreeSet<&String> = step.dirtying().collect();
+    let mut seen: BTreeSet<String> = BTreeSet::new();
     for r in reported {
         let c = canon_ref(r);
-        if v.contains(&c) || dirtying.contains(&c) {
+        if dirtying.contains(&c) || !seen.insert(c.clone()) {
             continue;
         }
         v.push(c);
@@ -157,9 +158,10 @@ pub fn output_content(proj: &Project, step: &Step, out: &str, disk: &Disk) -> u6
         h = fnv_combine(h, fnv(c.as_bytes()));
     }
     let mut reads: Vec<String> = step.dirtying().cloned().collect();
+    let mut seen: BTreeSet<String> = reads.iter().cloned().collect();
     for r in &step.extra_reads {
         let c = canon_ref(r);
-        if !reads.contains(&c) {
+        if seen.insert(c.clone()) {
             reads.push(c);
         }
     }
@@ -188,14 +190,16 @@ pub fn apply_effect(
 ) -> Vec<Change> {
     let mut changes = Vec::new();
     let outs: Vec<String> = step.all_outs().cloned().collect();
+    // outputs this command ever writes
+    let writes = match &step.effect {
+        Effect::NoOutput => 0,
+        Effect::SomeOutputs(k) => (*k).min(outs.len()),
+        _ => outs.len(),
+    };
     let limit = match fail {
         Some(FailMode::Nothing) | Some(FailMode::Interrupt) => 0,
-        Some(FailMode::Some) => 1.min(outs.len()),
-        Some(FailMode::All) | None => match &step.effect {
-            Effect::NoOutput => 0,
-            Effect::SomeOutputs(k) => (*k).min(outs.len()),
-            _ => outs.len(),
-        },
+        Some(FailMode::Some) => 1.min(writes),
+        Some(FailMode::All) | None => writes,
     };
     // contents are computed from the state before any write of this step
     let contents: Vec<u64> = outs
@@ -329,13 +333,14 @@ pub fn predict_phase(
         if step.phony {
             continue;
         }
-        // a missing *source* dirtying input is a hard error
-        if let Some(f) = step
-            .dirtying()
-            .find(|f| !st.disk.contains_key(*f) && !rel.producer.contains_key(*f))
-        {
-            p.error = Some(format!("input {} missing", f));
-            return p;
+        // The first missing dirtying input decides: a source file is a hard
+        // error, a generated file just makes the step dirty (n2 stops looking
+        // at the first missing file; fidelity note, not a property).
+        if let Some(f) = step.dirtying().find(|f| !st.disk.contains_key(*f)) {
+            if !rel.producer.contains_key(f) {
+                p.error = Some(format!("input {} missing", f));
+                return p;
+            }
         }
         let why = dirty_reason(proj, rel, &st.records, si, &st.disk);
         if why == DirtyWhy::Clean {
